@@ -16,6 +16,7 @@ package internal
 
 import (
 	"net/http"
+	"net/textproto"
 	"strings"
 	"time"
 )
@@ -74,10 +75,11 @@ func clientPreconditionForwarded(req *http.Request, stored http.Header) bool {
 }
 
 // hasFieldValue reports whether any field line of the field has a value (an
-// empty first line does not hide the lines behind it).
+// empty first line does not hide the lines behind it; a line of white space
+// only is empty on the wire).
 func hasFieldValue(h http.Header, field string) bool {
 	for _, v := range h.Values(field) {
-		if v != "" {
+		if textproto.TrimString(v) != "" {
 			return true
 		}
 	}
